@@ -11,7 +11,9 @@ META = dict(
          "maintained ancestry tables; TLC proves on every tree of the bounded model that both agree and that the definitions have the stated "
          "properties. Tables (E4): compact targets over exponents x mantissa boundaries x sign (SetCompact's overflow/negative flags equal the "
          "numeric reading; proof 0 exactly for zero/negative/overflowing targets), locator heights for all tip heights up to 700 and around powers "
-         "of two up to 5000, skip heights. The harness builds seeded random trees of real CBlockIndex objects linked as AddToBlockIndex does "
+         "of two up to 5000, skip heights, and a tall-chain table (tip heights 2^k+8..2^k+11 for k = 1..22 and beyond, where the locator gains an "
+         "entry: locator heights ending at genesis, GetAncestor at every locator height, skip pointer) replayed on one linear chain of 4.2-4.5 million "
+         "real CBlockIndex entries. The harness builds seeded random trees of real CBlockIndex objects linked as AddToBlockIndex does "
          "(pprev, nHeight, BuildSkip, nChainWork += GetBlockProof) and logs every answer of GetAncestor (complete walks and random heights incl. "
          "out of range), LastCommonAncestor, CChain::SetTip/FindFork/Contains/Next/operator[]/Height/Tip/Genesis, LocatorEntries/GetLocator, "
          "GetBlockProof and nChainWork; the trace specification re-evaluates every line: trees up to 400 blocks with the full ancestry in the "
@@ -53,11 +55,23 @@ def run(ctx):
     t = ctx.tlc("ChainIndex", "ChainTables", "Tables.cfg" if quick else "Tables_thorough.cfg", name="tables", timeout=1200)
     rows = [json.loads(l) for l in open(t.emit_path)]
     kinds = collections.Counter(x["kind"] for x in rows)
-    if len(rows) != t.distinct or not all(kinds[k] for k in ("bits", "loc", "skip")):
+    if len(rows) != t.distinct or not all(kinds[k] for k in ("bits", "loc", "skip", "tall")):
         raise vflib.InfraError("tables: %d rows for %d states (%s)" % (len(rows), t.distinct, dict(kinds)))
     nzero = sum(1 for x in rows if x["kind"] == "bits" and x["zero"])
     if not nzero or nzero == kinds["bits"]:
         raise vflib.InfraError("vacuity: the compact-target table has %d zero-class rows of %d" % (nzero, kinds["bits"]))
+    tall = [x for x in rows if x["kind"] == "tall"]
+    rows = [x for x in rows if x["kind"] != "tall"]
+    if len(tall) < 80 or max(x["h"] for x in tall) < 2 ** 22 + 11 or max(len(x["hs"]) for x in tall) < 34:
+        raise vflib.InfraError("vacuity: the tall-chain table has %d rows" % len(tall))
+    # one process, one chain of millions of blocks (not sharded: every shard would build its own)
+    tres = ctx.run_harness(binary, "tall", tall, args=[max(x["h"] for x in tall)], nproc=1, name="tall")
+    ctx.evaluations += int(tres["summary"]["tests"])
+    ctx.extra["tall_chain"] = dict(blocks=max(x["h"] for x in tall) + 1, tip_heights=len(tall), longest_locator=max(len(x["hs"]) for x in tall),
+                                   ancestor_queries=int(tres["summary"].get("tall_ancestor_queries", 0)),
+                                   skip_height_formula_deviations=int(tres["summary"].get("deviations", 0)))
+    vflib.report_mismatches(ctx, binary, "tall", tres, args=[max(x["h"] for x in tall)], adapter="chainindex", what_prefix="ChainIndex tall chain: ",
+                            key_fn=lambda m, case: "tall:" + vflib.digest(__import__("re").sub(r"\d+", "N", m.get("why") or "")))
     res = ctx.run_harness(binary, "table", rows, name="tables")
     ctx.evaluations += int(res["summary"]["tests"])
     ctx.extra["table_rows"] = dict(kinds)
